@@ -160,8 +160,9 @@ def run_rules(ctx, prop=None, only=None):
         for view in VIEWS:
             res = _run_one(ctx, rd, view)
             nbad = sum(1 for r in res if r.status in ('violation', 'shape'))
-            if best is None or nbad < best[0]:
-                best = (nbad, res)
+            nshape = sum(1 for r in res if r.status == 'shape')
+            if best is None or (nbad, nshape) < best[0]:
+                best = ((nbad, nshape), res)
             if nbad == 0:
                 break
         ctx.results.extend(best[1])
